@@ -35,6 +35,7 @@ def run(chk):
     rule_confine(chk)
     if bp:
         rule_arms(chk, bp)
+    rule_peel(chk)
     import c05
     # shared table agreement
     tabs = {}
@@ -175,3 +176,58 @@ def rule_arms(chk, bp):
             same = len({v[1].get(fld) for v in vals}) == 1
             chk.ob("C18.tables/arms/stage.%s" % fld, same, "stage.%s built the same way for all targets" % fld if same else
                    "CompiledPipelineStage.%s differs per target: %s" % (fld, {k: v[1].get(fld) for k, v in arms.items()}), where(bp))
+
+
+def rule_peel(chk):
+    """Both exporters describe a bound resource from its type with the modifiers removed: in analyse_bindings every
+    type layer that decides the descriptor kind or count is read from an id that went through remove_modifier (a
+    `const` / typedef'd array is still an array). The HLSL and the MSL copy must agree on this."""
+    f = chk.facts
+    shapes = {}
+    for crate, tgt in (("rssl_hlsl", "hlsl"), ("rssl_msl", "msl")):
+        ab = f.fn("analyse_bindings", crate)
+        if not ab:
+            continue
+        body = ab["thir"]
+        binds = {}      # var id -> defining expression
+        for s in F.walk(body):
+            if s.get("k") != "LetStmt" or "init" not in s:
+                continue
+            pat = s["pat"]
+            if pat.get("k") == "Bind":
+                binds[pat["id"]] = s["init"]
+            else:
+                for i_, nm_, path_ in F.pat_binds(pat):
+                    binds[i_] = ("tuple", s["init"], path_)
+
+        def peeled(e, depth=0):
+            e = F.strip(e)
+            if depth > 6:
+                return False
+            if e.get("k") == "Call" and short(e.get("fn") or "") == "remove_modifier":
+                return True
+            if e.get("k") == "Var" and e["id"] in binds:
+                d = binds[e["id"]]
+                if isinstance(d, tuple):
+                    _, init, path = d
+                    outs = []
+                    for tup in (x for x in F.walk(init) if isinstance(x, dict) and x.get("k") == "Tuple"):
+                        try:
+                            outs.append(peeled(tup["elems"][int(path[0])], depth + 1))
+                        except (IndexError, ValueError, TypeError):
+                            outs.append(False)
+                    return bool(outs) and all(outs)
+                return peeled(d, depth + 1)
+            return False
+        probes = [c for c in F.exprs(body, "Call") if short(c.get("fn") or "") == "get_type_layer" and len(c.get("args", [])) > 1]
+        res = []
+        for k, c in enumerate(probes):
+            ok = peeled(c["args"][1])
+            res.append(ok)
+            chk.ob("C18.tables/peel/%s#%d" % (tgt, k), ok, "type layer read after remove_modifier" if ok else
+                   "%s analyse_bindings reads the type layer of an id that still carries its modifiers: a const / typedef'd resource array is no longer seen as an array, so this target reports another descriptor kind and count than the others" % tgt,
+                   where(ab, c), sample={"target": tgt, "probe": k, "peeled": ok})
+        shapes[tgt] = len(res)
+    if len(shapes) == 2:
+        ok = shapes["hlsl"] == shapes["msl"] and shapes["hlsl"] >= 2
+        chk.ob("C18.tables/peel/agree", ok, "both copies probe the type %d times" % shapes["hlsl"] if ok else "the HLSL and MSL copies of analyse_bindings inspect the resource type differently: %s" % shapes, "rssl_hlsl / rssl_msl")
